@@ -26,7 +26,8 @@ for d in sorted((V / "seeded").iterdir()):
 p = V / "DESIGN.md"
 s = p.read_text()
 s = re.sub(r"<!-- seeds:begin -->.*<!-- seeds:end -->",
-           "<!-- seeds:begin -->\n" + "\n".join(rows) + "\n<!-- seeds:end -->",
+           lambda _m: "<!-- seeds:begin -->\n" + "\n".join(rows)
+           + "\n<!-- seeds:end -->",
            s, flags=re.S)
 p.write_text(s)
 print(len(rows) - 2, "seeds")
